@@ -840,7 +840,9 @@ pub fn run(tier: Tier, _replay: Option<String>) -> i32 {
                     for (si, s) in SPECIALS.iter().enumerate() {
                         let mut sp = dense.clone();
                         sp[op][i] = *s;
-                        cases.push((format!("special{si}:op{op}"), sp, vec![scalars[scalars.len() - 1].min(0.5)]));
+                        // (a zero scalar must still propagate NaN / infinity: 0 * inf = NaN)
+                        let sc = if uses_scalar(k) { vec![0.5, 0.0, -0.0] } else { vec![scalars[scalars.len() - 1].min(0.5)] };
+                        cases.push((format!("special{si}:op{op}"), sp, sc));
                     }
                 }
             }
